@@ -237,7 +237,10 @@ def merge(procs):
                 tot["floors"].append(f)
         for k, v in d.get("extra", {}).items():
             if isinstance(v, (int, float)) and not isinstance(v, bool):
-                tot["extra"][k] = tot["extra"].get(k, 0) + v
+                if k.startswith("max_"):
+                    tot["extra"][k] = max(tot["extra"].get(k, 0), v)
+                else:
+                    tot["extra"][k] = tot["extra"].get(k, 0) + v
             else:
                 tot["extra"].setdefault(k, v)
         tot["shard_wall_s"].append(round(d.get("wall_s", 0.0), 2))
